@@ -4,9 +4,11 @@ package c04
 import (
 	"bytes"
 	"fmt"
+	"net"
 	"runtime"
 	"runtime/metrics"
 	"sort"
+	"strings"
 	"testing"
 	"time"
 
@@ -124,6 +126,9 @@ func init() {
 		}})
 	for _, sp := range gpack.Specs {
 		sp := sp
+		if strings.Contains(sp.Name, "/large") { // megabyte payloads: the per-offset fault enumeration would take minutes per message
+			continue
+		}
 		t := &Target{Name: "pack:" + sp.Name,
 			Build: func(s *rfl.Stream) []byte { return encodePack(sp, sp.Build(s, 0)) },
 			Decode: func(b []byte) {
@@ -888,3 +893,100 @@ func FuzzDecoders(f *testing.F) {
 		}
 	})
 }
+
+// ---- reads from a connection: a peer that closes mid-field ---------------------------------------------
+
+type NetCase struct {
+	Stream string `json:"stream"` // bytes the peer would send in full
+	Cut    int    `json:"cut"`    // the peer sends Stream[:Cut] and closes
+	Chunks []int  `json:"chunks"` // sizes of the peer's writes (cycled)
+	Reads  []int  `json:"reads"`  // field widths read in order: 1,2,3,4,5,8 = fixed-width integers; >= 100: ReadBytes(n-100)
+}
+
+var specNet = pbt.Register(pbt.Spec[NetCase]{
+	Prop: "C04", Name: "connection-short-reads",
+	Rule:  "a DataInputX reading from a connection (net.Pipe) whose peer writes a prefix of the stream in generated chunk sizes and then closes; a sequence of fixed-width and ReadBytes(n) reads: a read whose field lies completely inside what was sent must return exactly those bytes, a read whose field is cut by the close must report failure (panic) and never return zero-filled or partial data; non-trivial = the close falls strictly inside a multi-byte field; distinct by case",
+	Quick: 1500, Thorough: 60000,
+	Draw: func(t *rapid.T) NetCase {
+		b := rapid.SliceOfN(rapid.Byte(), 1, 64).Draw(t, "stream")
+		c := NetCase{Stream: gen.Hex(b), Cut: rapid.IntRange(0, len(b)).Draw(t, "cut")}
+		c.Chunks = rapid.SliceOfN(rapid.IntRange(1, 9), 1, 4).Draw(t, "chunks")
+		c.Reads = rapid.SliceOfN(rapid.SampledFrom([]int{1, 2, 3, 4, 5, 8, 100, 101, 103, 107, 116}), 1, 12).Draw(t, "reads")
+		return c
+	},
+	Run: func(c NetCase) *pbt.Result {
+		s := gen.UnHex(c.Stream)
+		cut := c.Cut
+		if cut > len(s) {
+			cut = len(s)
+		}
+		server, client := net.Pipe()
+		go func() {
+			defer server.Close()
+			off := 0
+			for i := 0; off < cut; i++ {
+				n := c.Chunks[i%len(c.Chunks)]
+				if off+n > cut {
+					n = cut - off
+				}
+				if _, err := server.Write(s[off : off+n]); err != nil {
+					return
+				}
+				off += n
+			}
+		}()
+		defer client.Close()
+		in := wio.NewDataInputNet(client)
+		off := 0
+		inside := false
+		for ri, w := range c.Reads {
+			width := w
+			if w >= 100 {
+				width = w - 100
+			}
+			if off+width > len(s) {
+				break
+			}
+			var got []byte
+			p := panics(func() {
+				switch w {
+				case 1:
+					got = []byte{in.ReadByte()}
+				case 2:
+					got = be(uint64(uint16(in.ReadShort())), 2)
+				case 3:
+					got = be(uint64(uint32(in.ReadInt3())&0xffffff), 3)
+				case 4:
+					got = be(uint64(uint32(in.ReadInt())), 4)
+				case 5:
+					got = be(uint64(in.ReadLong5())&0xffffffffff, 5)
+				case 8:
+					got = be(uint64(in.ReadLong()), 8)
+				default:
+					got = in.ReadBytes(int32(width))
+				}
+			})
+			whole := off+width <= cut
+			if whole {
+				if p {
+					return pbt.Fail("read %d (%d bytes at offset %d) failed although the peer sent all of them (%d bytes sent)", ri, width, off, cut)
+				}
+				if !bytes.Equal(got, s[off:off+width]) {
+					return pbt.Fail("read %d returned %x, the peer sent %x", ri, got, s[off:off+width])
+				}
+				off += width
+				continue
+			}
+			if off < cut && width > 1 {
+				inside = true
+			}
+			if !p {
+				return pbt.Fail("read %d of %d bytes at offset %d returned %x although the peer closed after %d bytes: data that was never received", ri, width, off, got, cut)
+			}
+			break
+		}
+		return &pbt.Result{NT: inside, Classes: []string{fmt.Sprintf("cut-inside-field=%v", inside)}}
+	},
+})
+
+func TestConnectionShortReads(t *testing.T) { specNet.Check(t) }
